@@ -330,6 +330,13 @@ func init() {
 			for _, v := range dynamics {
 				cases = append(cases, Case{"doc": Doc{{Deg: "1", Sym: "", Vals: one()}, {Deg: "1", Sym: "", Vals: one(), Vel: "mf"}}, "flags": Flags{Vel: v}, "tracks": 1})
 			}
+			// tempi at and beyond what the event can carry (24 bits of microseconds per quarter note)
+			for _, b := range []int{1, 2, 3, 4, 5, 59999999, 60000000, 60000001, 120000000, 1000000000} {
+				cases = append(cases,
+					Case{"doc": Doc{{Deg: "1", Sym: "", Vals: one(), BPM: b}, {Deg: "5", Sym: "", Vals: one()}}, "flags": Flags{}, "tracks": 1},
+					Case{"doc": Doc{{Deg: "1", Sym: "", Vals: one()}, {Rest: true, Vals: one(), BPM: b}, {Deg: "5", Sym: "", Vals: one()}}, "flags": Flags{}, "tracks": 2},
+					Case{"doc": Doc{{Deg: "1", Sym: "", Vals: one(), BPM: 90}}, "flags": Flags{BPM: b}, "tracks": 1})
+			}
 			// consecutive keys that share a tonic pitch and a mode but not a signature (enharmonic moves), and a key restated
 			for _, pr := range [][2]string{{"F#", "Gb"}, {"Gb", "F#"}, {"C#", "Db"}, {"Db", "C#"}, {"D#m", "Ebm"}, {"Ebm", "D#m"}, {"B", "Cb"}, {"Cb", "B"}, {"G#m", "G#m"}, {"C", "Am"}, {"A", "F#m"}} {
 				cases = append(cases,
